@@ -11,7 +11,9 @@ Inductive envelope :=
   | EnvPickle (p : pickle)
   | EnvParseError (uri : str) (l : loc) (message : str).
 
-Record options := mk_options { print_source : bool; print_ast : bool; print_pickles : bool }.
+(* stop_first is not one of GherkinEvents.Options: it is the stop_at_first_error attribute of the
+   stream's Parser (events.parser.stop_at_first_error), which a caller may set *)
+Record options := mk_options { print_source : bool; print_ast : bool; print_pickles : bool; stop_first : bool }.
 
 Definition MEDIA_TYPE : str := s2l "text/x.cucumber.gherkin+plain".
 Definition EN : str := s2l "en".
@@ -25,7 +27,7 @@ Definition enum_source (o : options) (idc : nat) (uri data : str) : option (list
   match new_matcher dialects EN with
   | None => None
   | Some m0 =>
-    match parse_source false m0 (new_builder idc) data with
+    match parse_source (stop_first o) m0 (new_builder idc) data with
     | POk d _ b _ =>
       let i := b_idc b in
       let head := (if print_source o then [EnvSource uri data MEDIA_TYPE] else [])
